@@ -141,6 +141,15 @@ def generate(rng, tier):
         else: raw = raw + bytes(rng.randrange(256) for _ in range(rng.randrange(0, 9)))
         self_mask = rng.choice([None, None, b'abcd'])
         cases.append(dict(kind='parse', raw=raw, self_mask=self_mask))
+    # histories on ONE frame object: WebsocketFrame.reset() exists so that objects are reused; every build after a reset must
+    # be what a fresh object would produce (longer then shorter payloads, masked then unmasked, parse then rebuild)
+    for _ in range(12 if quick else 150):
+        sizes = rng.choice([[300, 5], [130, 0], [126, 125, 1], [5, 300, 5], [70000, 0] if not quick else [200, 3], [40, 40], [1, 0, 1]])
+        steps = []
+        for n in sizes:
+            steps.append(dict(frame=mk_frame(rng, n), rnd=bytes(rng.randrange(256) for _ in range(4)),
+                              via_parse=rng.random() < 0.3))
+        cases.append(dict(kind='seq', steps=steps))
     # handshake keys
     for _ in range(40 if quick else 400):
         ln = rng.choice([0, 1, 16, 19, 20, 24, 27, 28, 55, 56, 64, 100, 119, 120, 200])
@@ -211,6 +220,24 @@ def run_impl(case):
         except Exception as e:
             out.update(parse_err=C.exn_code(e), err=repr(e))
         return out
+    if k == 'seq':
+        f = WebsocketFrame()
+        outs = []
+        for st in case['steps']:
+            f.reset()
+            if st['via_parse']:
+                # relay style: fill the object by parsing an encoding of the frame, then rebuild it
+                f.parse(ref_encode(st['frame'], st['rnd']))
+                if st['frame']['masked'] and st['frame']['mask'] is None:
+                    pass
+            else:
+                set_frame(f, st['frame'])
+            with mock.patch('secrets.token_bytes', lambda n, st=st: st['rnd']):
+                try:
+                    outs.append(dict(raw=f.build(), pl=f.payload_length))
+                except Exception as e:
+                    outs.append(dict(build_err=C.exn_code(e), err=repr(e)))
+        return dict(steps=outs)
     if k == 'parse':
         g = WebsocketFrame(); g.mask = case['self_mask']
         try:
@@ -233,6 +260,20 @@ def obs_frame_rest(out):
 
 def coq_term(case, out):
     k = case['kind']
+    if k == 'seq':
+        terms = []
+        for st, o in zip(case['steps'], out['steps']):
+            fr = st['frame']
+            if st['via_parse']:
+                # what parse leaves in the object: payload_length = len, mask = key used (or None), data = payload
+                d = frame_data(fr) or b''
+                fr = dict(fr, payload_length=len(d), data=d,
+                          mask=((fr['mask'] if fr['mask'] is not None else st['rnd']) if fr['masked'] else None))
+            if 'build_err' in o:
+                terms.append('CBuild %s (%s) (ErrObs %d)' % (C.coq_bytes(st['rnd']), coq_frame(fr), o['build_err']))
+            else:
+                terms.append('CBuild %s (%s) (OkObs (%s, %d))' % (C.coq_bytes(st['rnd']), coq_frame(fr), coq_bytes_compact(o['raw']), o['pl']))
+        return terms
     if k == 'build':
         if 'build_err' in out:
             return 'CBuild %s (%s) (ErrObs %d)' % (C.coq_bytes(case['rnd']), coq_frame(case['frame']), out['build_err'])
@@ -254,6 +295,16 @@ def extra_terms(case, out):
 def oracle(case, out):
     """the property itself, evaluated on the implementation with an independent encoder"""
     k = case['kind']
+    if k == 'seq':
+        for i, (st, o) in enumerate(zip(case['steps'], out['steps'])):
+            if not wf(st['frame'], st['rnd']):
+                continue
+            if 'build_err' in o:
+                return 'step %d on a reused frame object: build() raised %s' % (i, o['err'])
+            exp = ref_encode(st['frame'], st['rnd'])
+            if o['raw'] != exp:
+                return 'step %d on a reused frame object (after reset()): build() differs from the RFC 6455 encoding (len %d vs %d)' % (i, len(o['raw']), len(exp))
+        return None
     if k == 'build':
         fr = case['frame']
         if not wf(fr, case['rnd']):
@@ -290,6 +341,8 @@ def coq_term_all(case, out):
 
 def nontrivial(case, out):
     k = case['kind']
+    if k == 'seq':
+        return all('build_err' not in o for o in out['steps'])
     if k == 'build':
         return 'build_err' not in out and 'parse_err' not in out and len(frame_data(case['frame']) or b'') > 0
     if k == 'parse':
@@ -303,6 +356,8 @@ def classify(case, out, failure):
 
 def model_expr(case):
     k = case['kind']
+    if k == 'seq':
+        return 'build %s (%s)' % (C.coq_bytes(case['steps'][-1]['rnd']), coq_frame(case['steps'][-1]['frame']))
     if k == 'build':
         return 'build %s (%s)' % (C.coq_bytes(case['rnd']), coq_frame(case['frame']))
     if k == 'parse':
